@@ -22,6 +22,7 @@ type cipherObj struct {
 	cts    map[int][]byte // ciphertexts produced by this object, by step-assigned id
 	pts    map[int][]byte
 	dirty  bool // a failed call happened since the last successful one
+	recent [][]byte
 }
 
 type c10State struct {
@@ -264,6 +265,19 @@ func opEnc(w *World, s *Step) (string, string) {
 	if c.dirty {
 		w.stats.inc("probe_call_after_failed_call_checked")
 		c.dirty = false
+	}
+	// the caller owns what Encrypt returned, spare capacity included: it appends to EARLIER ciphertexts of this
+	// object (as a sender appending a checksum would) - later ones must not change
+	for _, prev := range c.recent {
+		if spare := cap(prev) - len(prev); spare > 0 {
+			junk := bytes.Repeat([]byte{0xEE}, min(spare, 32))
+			_ = append(prev, junk...)
+			w.stats.inc("probe_appended_into_spare_capacity_of_earlier_ciphertext")
+		}
+	}
+	c.recent = append(c.recent, ct)
+	if len(c.recent) > 3 {
+		c.recent = c.recent[1:]
 	}
 	c.cts[s.Ref] = ct
 	c.pts[s.Ref] = clone(s.Data)
